@@ -82,7 +82,10 @@ class MessageExtractor:
                     # the filter list may hold translatable calls as well;
                     # the parentheses keep a multi-line expression one
                     # logical line for the tokenizer
-                    code = "(%s), (%s,)" % (code, node.escapes)
+                    # and the line breaks keep the filter list on the line it
+                    # is written on (the lexer strips those before it)
+                    pad = "\n" * (node.escapes_lineno_offset - code.count("\n"))
+                    code = "(%s), (%s%s,)" % (code, pad, node.escapes)
             else:
                 continue
 
